@@ -11,9 +11,10 @@
 (***************************************************************************)
 EXTENDS AccessDecision, Json
 
-CONSTANTS Slice,   \* "crit" | "rules" | "relay" | "dom" | "grants" | "gov" | "sig" | "forge" | "table"
+CONSTANTS Slice,   \* "crit" | "rules" | "relay" | "dom" | "grants" | "window" | "gov" | "sig" | "forge" | "table"
           Big,     \* FALSE: quick bound, TRUE: thorough bound
-          MaxEdits \* slice "forge": number of cooperating edits of a signed container (0 elsewhere)
+          MaxEdits,\* slice "forge": number of cooperating edits of a signed container (0 elsewhere)
+          MaxCo    \* slice "forge": number of co-SignerInfos a container may carry (adding one is an edit)
 
 VARIABLES doc, subj, phase,
           fb, fca   \* slice "forge": the assembled container (AccessDecision!fblob) and the configured CA
@@ -89,6 +90,32 @@ GrantGov == <<T("B", FALSE, FALSE), T("*", TRUE, TRUE)>>
 GrantDocs == {Doc(gs, GrantGov) : gs \in Seq1(GrantSet) \cup Seq2(GrantSet)}
 GrantQ == [doms |-> <<0>>, topics |-> <<"A", "B">>, parts |-> << <<"A">> >>]
 
+(* ---- slice "window": validity bounds as the document WRITES them (digits + zone designator), ---- *)
+(* ---- instants next to the bounds; first valid grant among windows                              ---- *)
+Zn(k, m) == [zk |-> k, zm |-> m]
+Zones == {Zn("none", 0), Zn("Z", 0), Zn("off", 0), Zn("off", 60), Zn("off", -300), Zn("off", 330)}
+           \cup (IF Big THEN {Zn("off", 840), Zn("off", -720), Zn("off", -210)} ELSE {})
+Zones3 == {Zn("Z", 0), Zn("off", 60), Zn("off", -300)}
+\* the bound that designates instant `at`, written in zone z
+Bd(at, z) == [d |-> at + (IF z.zk = "off" THEN 60 * z.zm ELSE 0), zk |-> z.zk, zm |-> z.zm]
+\* (not_before, not_after) as instants relative to the reference: run out half an hour ago, running out in
+\* half an hour, begun half an hour ago, beginning in half an hour
+WinPairs == {<<-7200, -1800>>, <<-7200, 1800>>, <<-1800, 7200>>, <<1800, 7200>>}
+GW(s, w, zb, za, d, rs) == [subj |-> s, val |-> "window", def |-> d, rules |-> rs, nb |-> Bd(w[1], zb), na |-> Bd(w[2], za)]
+WinAllowA == <<R(TRUE, AllDoms, <<cA>>, <<cA>>, <<>>)>>
+WinDenyA  == <<R(FALSE, AllDoms, <<cA>>, <<cA>>, <<>>)>>
+WinOne == {<<GW("S1", w, zb, za, "DENY", WinAllowA)>> : w \in WinPairs, zb \in Zones, za \in Zones}
+WinTwo == {<<GW("S1", w, zb, za, "DENY", WinAllowA), g2>> :
+              w \in WinPairs, zb \in Zones3, za \in Zones3,
+              g2 \in {G("S1", "valid", "ALLOW", WinDenyA),
+                      GW("S1", <<-1800, 1800>>, Zn("off", -300), Zn("off", 60), "ALLOW", WinDenyA)}}
+WindowDocs == {Doc(gs, GovProt) : gs \in WinOne \cup WinTwo}
+\* instants asked explicitly (real find_grant): one second around every bound, the instants a reading that
+\* ignores / mis-applies the designator would confuse, far away
+WindowQ == [doms |-> <<0>>, topics |-> <<"A", "B">>, parts |-> << <<"A">> >>,
+            times |-> <<-36000, -19800, -7201, -7200, -7199, -5400, -3600, -1801, -1800, -1799, -1, 0, 1,
+                        1799, 1800, 1801, 3600, 5400, 7199, 7200, 7201, 19800, 36000>>]
+
 (* ---- slice "gov": governance topic rules (first match, read / write switches) ---- *)
 GovRules == {T(e, r, w) : e \in {"A", "A*", "*", "?B"}, r \in BOOLEAN, w \in BOOLEAN}
 GovDocs == {Doc(OneGrant("DENY", <<R(TRUE, AllDoms, <<cA>>, <<>>, <<>>)>>), gv)
@@ -99,15 +126,20 @@ GovQ == [doms |-> <<0>>, topics |-> Names3, parts |-> << <<"A">> >>]
 Blobs == [content : {"c1", "c2"}, sigOver : {"c1", "c2", "none"}, signer : {"CA", "other", "none"}]
 SigDocs == {Doc(<<>>, <<>>)}
 
+ToSet(s) == {s[i] : i \in DOMAIN s}
 Docs == CASE Slice = "crit" -> CritDocs [] Slice = "rules" -> RulesDocs [] Slice = "relay" -> RelayDocs
           [] Slice = "dom" -> DomDocs [] Slice = "grants" -> GrantDocs [] Slice = "gov" -> GovDocs
+          [] Slice = "window" -> WindowDocs
           [] OTHER -> SigDocs
 QU == CASE Slice = "crit" -> CritQ [] Slice = "rules" -> RulesQ [] Slice = "relay" -> RelayQ
         [] Slice = "dom" -> DomQ [] Slice = "grants" -> GrantQ [] Slice = "gov" -> GovQ
+        [] Slice = "window" -> WindowQ
         [] OTHER -> [doms |-> <<>>, topics |-> <<>>, parts |-> <<>>]
+\* the instants at which the grant lookup is judged: the reference instant (the decisions of a run are
+\* taken at the clock = reference) and, slice "window", the instants asked explicitly
+Times == {0} \cup (IF Slice = "window" THEN ToSet(WindowQ.times) ELSE {})
 Subjects == IF Slice = "grants" THEN {"S1", "S2"} ELSE {"S1"}
 
-ToSet(s) == {s[i] : i \in DOMAIN s}
 PublicOps == {"create_writer", "create_reader", "create_topic", "remote_writer", "remote_reader", "remote_topic"}
 DirectOps == {"entity_writer", "entity_reader", "entity_topic"}
 \* exactly the queries the driver asks for a query universe (see access_drv.rs::queries)
@@ -122,8 +154,11 @@ Queries ==
 \* content, rewrite a signed attribute (the signature value stays), exchange / damage the
 \* signature value, replace a field that lies outside the signature.
 NoBlob == [content |-> "-"]
+\* what is added as a co-SignerInfo: the CA's genuine signatures (T, O), a third party's (foreign CA over T), the
+\* participant's own over the edited content (the seeded runs of the driver draw from all Materials)
+CoMaterials == {m \in Materials : m.by = "CA" \/ (m.by = "foreign" /\ m.of = "T") \/ m.of = "E"}
 ForgeInit == /\ doc \in SigDocs /\ subj = "S1" /\ phase = 0
-             /\ fb \in {FBase(by, of) : by \in Signers, of \in {"T", "O"}}
+             /\ fb \in {FBase(m.by, m.of) : m \in Materials}
              /\ fca \in {"CA", "foreign"}
 ForgeEdit ==
   \/ fb.content = "T" /\ \E c \in {"O", "E"} : fb' = [fb EXCEPT !.content = c]
@@ -131,6 +166,8 @@ ForgeEdit ==
   \/ fb.rest = "orig" /\ fb' = [fb EXCEPT !.rest = "alt"]
   \/ fb.sig = fb.of /\ \E v \in {"T", "O", "junk"} \ {fb.of} : fb' = [fb EXCEPT !.sig = v]
   \/ \E f \in UFields : fb.un[f] = "orig" /\ \E v \in UAlts(f) : fb' = [fb EXCEPT !.un[f] = v]
+  \* co-sign: put one more genuine SignerInfo (as its signer made it) into the SignedData
+  \/ Len(fb.co) < MaxCo /\ \E m \in CoMaterials : fb' = [fb EXCEPT !.co = Append(@, SIBase(m.by, m.of))]
 ForgeNext ==
   \/ phase = 0 /\ phase' = 1 /\ UNCHANGED <<doc, subj, fb, fca>>
   \/ phase = 1 /\ FEdits(fb) < MaxEdits /\ ForgeEdit /\ UNCHANGED <<doc, subj, phase, fca>>
@@ -148,17 +185,27 @@ Inv_ScanIsFirstApplicable == phase = 1 =>
      Scan(doc.grants[i].rules, doc.grants[i].def, act, q, amb) = Allowed(doc.grants[i], act, q, amb)
 \* access the governance document leaves unprotected is granted to every subject with a valid grant
 Inv_UnprotectedGranted == phase = 1 =>
-  \A q \in Queries : (GrantIdx(doc, subj) # 0 /\ \A amb \in Amb : Unprotected(doc, q, amb)) => Acceptable(doc, subj, q) = {TRUE}
+  \A q \in Queries, t \in Times : (GrantIdx(doc, subj, t) # 0 /\ \A amb \in Amb : Unprotected(doc, q, amb)) => Acceptable(doc, subj, q, t) = {TRUE}
 \* no currently valid grant: protected access is never granted
 Inv_NoGrantNoProtectedAccess == phase = 1 =>
-  \A q \in Queries : (GrantIdx(doc, subj) = 0 /\ \A amb \in Amb : ~Unprotected(doc, q, amb)) => Acceptable(doc, subj, q) = {FALSE}
+  \A q \in Queries, t \in Times : (GrantIdx(doc, subj, t) = 0 /\ \A amb \in Amb : ~Unprotected(doc, q, amb)) => Acceptable(doc, subj, q, t) = {FALSE}
 \* the readings the standard leaves open only matter for partition-less queries and topics
 Inv_OnlyDeclaredAmbiguity == phase = 1 =>
-  \A q \in Queries : (q.parts # <<>> /\ q.op \notin TopicOps /\ GrantIdx(doc, subj) # 0) => Cardinality(Acceptable(doc, subj, q)) = 1
+  \A q \in Queries, t \in Times : (q.parts # <<>> /\ q.op \notin TopicOps /\ GrantIdx(doc, subj, t) # 0) => Cardinality(Acceptable(doc, subj, q, t)) = 1
 \* an expired / future / foreign grant never contributes
 Inv_OnlyValidOwnGrantCounts ==
-  LET g == GrantIdx(doc, subj) IN g # 0 => (doc.grants[g].subj = subj /\ doc.grants[g].val = "valid"
-                                            /\ \A j \in 1..(g - 1) : doc.grants[j].subj # subj \/ doc.grants[j].val # "valid")
+  \A t \in Times :
+    LET g == GrantIdx(doc, subj, t) IN g # 0 => (doc.grants[g].subj = subj /\ GrantValidAt(doc.grants[g], t)
+                                               /\ \A j \in 1..(g - 1) : doc.grants[j].subj # subj \/ ~GrantValidAt(doc.grants[j], t))
+\* slice "window": a validity bound is an INSTANT - the zone designator is notation.  The same bounds spelled in
+\* UTC select the same grant at every instant; a window written with designators is valid exactly between the
+\* instants it designates (whatever its digits say)
+Inv_ZoneIsNotation ==
+  /\ \A t \in Times :
+       GrantIdx(doc, subj, t) = GrantIdx([doc EXCEPT !.grants = [i \in DOMAIN doc.grants |-> RespellGrant(doc.grants[i])]], subj, t)
+  /\ \A i \in DOMAIN doc.grants : doc.grants[i].val = "window" =>
+       \E w \in WinPairs \cup {<<-1800, 1800>>} :
+          \A t \in Times : GrantValidAt(doc.grants[i], t) = (w[1] <= t /\ t < w[2])
 \* signature clause on the abstract blobs
 Inv_AcceptedOnlyAsSigned ==
   Slice = "sig" => \A b \in Blobs, ca \in {"CA", "other"} :
@@ -167,7 +214,8 @@ Inv_AcceptedOnlyAsSigned ==
 \* slice "forge": whatever is assembled without the CA's key, acceptance is admissible only for a
 \* content the configured CA made this very signature value for ...
 Inv_ForgedContentNeverAdmissible ==
-  Slice = "forge" => (Admissible(fb, fca) => (fb.content \in {"T", "O"} /\ fb.by = fca /\ fb.sig = fb.content))
+  Slice = "forge" => (Admissible(fb, fca) => (fb.content \in {"T", "O"}
+                                              /\ \E i \in DOMAIN SIs(fb) : SIs(fb)[i].by = fca /\ SIs(fb)[i].sig = fb.content))
 \* ... the fields outside the signature have no say in it ...
 Inv_UnsignedFieldsHaveNoSay ==
   Slice = "forge" => (Admissible(fb, fca) = Admissible([fb EXCEPT !.un = UOrig], fca))
@@ -175,9 +223,17 @@ Inv_UnsignedFieldsHaveNoSay ==
 \* signed attributes) accepts only admissible containers, whichever container fields it insists on
 Inv_ChainAcceptsOnlyAdmissible ==
   Slice = "forge" =>
-     /\ \A strict \in {{}, {"root_type", "si_salg"}, UFields} : ChainVerify(fb, fca, strict) => Admissible(fb, fca)
-     /\ ChainVerify(fb, fca, {}) = Admissible(fb, fca)
-     /\ (FUntouched(fb) /\ fb.by = fca) => ChainVerify(fb, fca, UFields)
+     /\ \A strict \in {{}, {"root_type", "si_salg"}, UFields}, pol \in 0..(1 + MaxCo) :
+           ChainVerify(fb, fca, strict, pol) => Admissible(fb, fca)
+     /\ ChainVerify(fb, fca, {}, 0) = Admissible(fb, fca)
+     /\ (FUntouched(fb) /\ fb.by = fca) => ChainVerify(fb, fca, UFields, 1)
+\* slice "forge", co-signed containers: the digest comparison and the CA's signature must meet in ONE SignerInfo -
+\* whenever a container is admissible, that SignerInfo alone (the others dropped) is an admissible container
+Inv_OneSignerInfoCarriesBoth ==
+  Slice = "forge" =>
+     (Admissible(fb, fca) =>
+        \E i \in DOMAIN SIs(fb) : LET s == SIs(fb)[i] IN
+           Admissible([fb EXCEPT !.by = s.by, !.of = s.of, !.md = s.md, !.rest = s.rest, !.sig = s.sig, !.co = <<>>], fca))
 
 (* ------------------------------ case dump -------------------------------- *)
 GenEdge ==
